@@ -586,6 +586,22 @@ def rule_cgrec(repo, tier):
             res.add(Finding('C10.CGREC', f, 'the convergence test (line %d) comes after the first division of the iteration (line %d): with an initial guess whose residual is '
                             'already zero the step length is 0 / 0 and NaN is returned instead of the guess' % (first_test, first_div), node=tests[0],
                             construct='convergence test after the step'))
+    # rho = r^T z is formed from the z of THIS iteration: the statement(s) that produce z (z = M r through out=z, or z = r) come before it in the loop body
+    rho_st = [st for st in ast.walk(loop) if isinstance(st, ast.Assign) and isinstance(st.value, ast.Call) and dotted(st.value.func) in ('torch.matmul', 'torch.mm')
+              and len(st.value.args) >= 2 and any(isinstance(x, ast.Name) and x.id == rname for x in ast.walk(st.value.args[0]))]
+    if rho_st:
+        zname = next((x.id for x in ast.walk(rho_st[0].value.args[1]) if isinstance(x, ast.Name)), None)
+        zdefs = []
+        for st in ast.walk(loop):
+            if isinstance(st, ast.Assign) and any(isinstance(t, ast.Name) and t.id == zname for t in st.targets):
+                zdefs.append(st.lineno)
+            if isinstance(st, ast.Call) and any(k.arg == 'out' and isinstance(k.value, ast.Name) and k.value.id == zname for k in st.keywords):
+                zdefs.append(st.lineno)
+        okz = bool(zdefs) and max(zdefs) < rho_st[0].lineno
+        res.inst({'function': f.fq, 'clause': 'rho formed after the preconditioned residual of this iteration', 'rho': src(rho_st[0])[:50], 'ok': okz}, 'rho-order')
+        if zdefs and not okz:
+            res.add(Finding('C10.CGREC', f, '`%s` is evaluated before `%s` is updated for this iteration: with a preconditioner rho is formed from the previous iteration\'s z '
+                            '(from an uninitialised buffer on the first one)' % (src(rho_st[0])[:50], zname), node=rho_st[0], construct='rho before z'))
     # the threshold is the CONFIGURED tolerance times |b|: no floor / cap / constant between self.tol and the comparison
     thr = [n for n in f.node.body if isinstance(n, ast.Assign) and any(dotted(x) == 'self.tol' for x in ast.walk(n.value))]
     for n in thr:
